@@ -243,15 +243,18 @@ def validate_both(unit, element, p):
             validate.node(p, errs)
         else:
             rule.Rule(unit).validate_rule(p, errs)
+    from harness.common import deadline
     ff = None
     try:
-        call(None)
+        with deadline(10):
+            call(None)
     except Exception as e:  # noqa: BLE001
         ff = e
     errs = []
     craised = None
     try:
-        call(errs)
+        with deadline(10):
+            call(errs)
     except Exception as e:  # noqa: BLE001
         craised = e
     if craised is None:
